@@ -8,7 +8,7 @@
 (* per trace is printed by an always-true reporting invariant, so a trace  *)
 (* is still checked after a failed clause.                                 *)
 (***************************************************************************)
-EXTENDS Integers, Sequences, FiniteSets, TLC, Json, IOUtils, ObsMetric, ObsFit, ObsClassify
+EXTENDS Integers, Sequences, FiniteSets, TLC, Json, IOUtils, ObsMetric, ObsFit, ObsClassify, ObsCalibrate
 
 Batch  == JsonDeserialize(IOEnv.TRACE_FILE)
 Traces == Batch.traces
@@ -28,6 +28,9 @@ Step(s, ev) ==
              IF ev.thr_after = ev.arg THEN {} ELSE {"C04.set_threshold_stores_value"},
              {"C04.set_threshold_stores_value"})
     [] ev.ev = "Calibrate" -> Res([s EXCEPT !.thr = ev.thr_after], {}, {})
+    [] ev.ev = "CalibrateCase" ->
+         Res(IF ev.exc = "" THEN [s EXCEPT !.thr = ev.thr] ELSE s, CalFails(ev), CalEx(ev))
+    [] ev.ev = "CalibrateInvalid" -> Res(s, InvalidFails(ev), InvalidEx)
     [] ev.ev = "PredictPairs"    -> Res(s, PairsFails(s.thr, ev), PairsEx(ev))
     [] ev.ev = "PredictTriplets" -> Res(s, TripletsFails(ev), TripletsEx)
     [] ev.ev = "PredictQuads"    -> Res(s, QuadsFails(ev), QuadsEx)
@@ -42,7 +45,8 @@ Init == /\ tid \in 1..Len(Traces)
 
 Next == /\ l <= Len(Traces[tid].events)
         /\ LET r == Step(st, Traces[tid].events[l])
-           IN  st' = r.st /\ fails' = fails \cup r.fails /\ ex' = ex \cup r.ex
+           IN  st' = r.st /\ ex' = ex \cup r.ex
+               /\ fails' = fails \cup {c \o "@" \o ToString(l) : c \in r.fails}
         /\ l' = l + 1
         /\ UNCHANGED tid
 
